@@ -57,7 +57,8 @@ DEFAULT_CONSTS = {"np.pi": "PI", "pi": "PI", "math.pi": "PI"}
 
 
 class Tr:
-    def __init__(self, calls=None, consts=None, self_attrs=None, bools=(), state=(), attrs=None):
+    def __init__(self, calls=None, consts=None, self_attrs=None, bools=(), state=(), attrs=None, opaque_exprs=None,
+                 opaque_bools=None):
         self.calls = dict(DEFAULT_CALLS)
         self.calls.update(calls or {})
         self.consts = dict(DEFAULT_CONSTS)
@@ -66,6 +67,10 @@ class Tr:
         self.attrs = dict(attrs or {})               # read-only dotted names (schema.illum_wavelen) -> Gallina parameter
         self.state = list(state)                     # mutable attributes of self: the method is a state transformer
         self.bools = set(bools)
+        # whole sub-expressions read as one real parameter each, keyed by their source text as printed by ast.unparse
+        # (np.min(s.r), s.largest_overlap()): what they evaluate to is outside the translated function
+        self.opaque_exprs = dict(opaque_exprs or {})
+        self.opaque_bools = dict(opaque_bools or {})     # the same for boolean-valued sub-expressions (s1.in_domain(points))
 
     def svar(self, attr):
         return "s_" + attr.lstrip("_")
@@ -85,6 +90,8 @@ class Tr:
 
     # ---------------------------------------------------------------- expressions (real valued)
     def ex(self, e, env):
+        if self.opaque_exprs and not isinstance(e, ast.Constant) and ast.unparse(e) in self.opaque_exprs:
+            return self.opaque_exprs[ast.unparse(e)]
         if isinstance(e, ast.Constant):
             return _num(e.value)
         if isinstance(e, ast.Name):
@@ -128,6 +135,15 @@ class Tr:
                 if isinstance(e.op, k):
                     return "(%s %s %s)" % (self.ex(e.left, env), s, self.ex(e.right, env))
             raise Unsupported("binary operator %s" % type(e.op).__name__)
+        if isinstance(e, ast.Call) and isinstance(e.func, ast.Attribute) and e.func.attr == "sum" and not e.keywords \
+                and len(e.args) == 1 and isinstance(e.args[0], ast.UnaryOp) and isinstance(e.args[0].op, ast.USub) \
+                and isinstance(e.args[0].operand, ast.Constant) and e.args[0].operand.value == 1 \
+                and isinstance(e.func.value, ast.BinOp) and isinstance(e.func.value.op, ast.Pow) \
+                and isinstance(e.func.value.left, ast.Name) and e.func.value.left.id in getattr(self, "vec3", ()) \
+                and isinstance(e.func.value.right, ast.Constant) and e.func.value.right.value == 2:
+            # (points**2).sum(-1) for a point (or an N x 3 array of points, read as its generic row)
+            v = e.func.value.left.id
+            return "(%s_x * %s_x + %s_y * %s_y + %s_z * %s_z)" % (v, v, v, v, v, v)
         if isinstance(e, ast.Call):
             d = _dotted(e.func)
             if e.keywords:
@@ -151,6 +167,13 @@ class Tr:
 
     # ---------------------------------------------------------------- conditions
     def cond(self, e, env):
+        if self.opaque_bools and ast.unparse(e) in self.opaque_bools:
+            return self.opaque_bools[ast.unparse(e)]
+        if isinstance(e, ast.Call) and not e.keywords and _dotted(e.func) in ("np.logical_or", "np.logical_and") and len(e.args) == 2:
+            op = "||" if _dotted(e.func) == "np.logical_or" else "&&"
+            return "(%s %s %s)" % (self.cond(e.args[0], env), op, self.cond(e.args[1], env))
+        if isinstance(e, ast.Call) and not e.keywords and _dotted(e.func) == "np.logical_not" and len(e.args) == 1:
+            return "(negb %s)" % self.cond(e.args[0], env)
         if isinstance(e, ast.Name) and e.id in self.bools:
             return e.id
         if isinstance(e, ast.UnaryOp) and isinstance(e.op, ast.Not):
@@ -185,6 +208,12 @@ class Tr:
             return "[" + "; ".join(self.ex(x, env) for x in e.args[0].elts) + "]"
         if isinstance(e, (ast.Tuple, ast.List)):
             return "[" + "; ".join(self.ex(x, env) for x in e.elts) + "]"
+        if isinstance(e, ast.Call) and _dotted(e.func) in ("np.linspace", "linspace") and len(e.args) == 3 and not e.keywords:
+            # numpy.linspace(a, b, n) is read as its three arguments [a; b; n]: the tie lemma applies the model's linspace
+            return "[" + "; ".join(self.ex(x, env) for x in e.args) + "]"
+        if isinstance(e, (ast.Compare, ast.BoolOp)) or (isinstance(e, ast.UnaryOp) and isinstance(e.op, ast.Not)) \
+                or (isinstance(e, ast.Call) and _dotted(e.func) in ("np.logical_or", "np.logical_and", "np.logical_not")):
+            return self.cond(e, env)          # a boolean result (the caller declares rettype bool)
         return self.ex(e, env)
 
     # ---------------------------------------------------------------- statement blocks
@@ -318,6 +347,8 @@ def translate(repo, relpath, qualname, name, params, rettype, **kw):
         else:
             sigs.append("(%s : %s)" % (p, kinds[k]))
     sigs += ["(%s : R)" % v for v in tr.self_attrs.values()]
+    sigs += ["(%s : R)" % v for v in tr.opaque_exprs.values()]
+    sigs += ["(%s : bool)" % v for v in tr.opaque_bools.values()]
     sig = " ".join(sigs)
     return "Definition %s %s : %s :=\n  %s.\n" % (name, sig, rettype, body)
 
@@ -338,3 +369,61 @@ def translate_kwarg(repo, relpath, qualname, kwarg, name, params, rettype, **kw)
     body = tr.ex(found[0].value, env)
     sig = " ".join("(%s : R)" % p for p, k in params)
     return "Definition %s %s : %s :=\n  %s.\n" % (name, sig, rettype, body)
+
+
+def translate_lambda_list(repo, relpath, qualname, name, listvar, itervar, point):
+    """Inside [qualname]: `<listvar> = [(lambda <point>, v=v: BODY) for v in <itervar>]` - one indicator function per element of
+    a list of reals.  Returns `name (v : R) (point : R*R*R) : bool := BODY` (BODY a comparison of reals; `(point**2).sum(-1)` is the
+    squared norm)."""
+    with open(os.path.join(repo, relpath)) as f:
+        tree = ast.parse(f.read())
+    fn = find_function(tree, qualname)
+    found = [n for n in ast.walk(fn) if isinstance(n, ast.Assign) and len(n.targets) == 1 and isinstance(n.targets[0], ast.Name)
+             and n.targets[0].id == listvar]
+    if len(found) != 1 or not isinstance(found[0].value, ast.ListComp):
+        raise Unsupported("%s is not assigned one list comprehension in %s" % (listvar, qualname))
+    lc = found[0].value
+    if len(lc.generators) != 1 or lc.generators[0].ifs or not isinstance(lc.generators[0].target, ast.Name) \
+            or not isinstance(lc.generators[0].iter, ast.Name) or lc.generators[0].iter.id != itervar or not isinstance(lc.elt, ast.Lambda):
+        raise Unsupported("shape of the comprehension for %s" % listvar)
+    v = lc.generators[0].target.id
+    lam = lc.elt
+    a = lam.args
+    if [x.arg for x in a.args] != [point, v] or len(a.defaults) != 1 or not isinstance(a.defaults[0], ast.Name) \
+            or a.defaults[0].id != v or a.vararg or a.kwarg or a.kwonlyargs:
+        raise Unsupported("signature of the lambda for %s" % listvar)
+    tr = Tr()
+    tr.vec3 = {point}
+    body = tr.cond(lam.body, frozenset({v}))
+    return "Definition %s (%s : R) (%s : R * R * R) : bool :=\n  let '(%s_x, %s_y, %s_z) := %s in %s.\n" % (
+        name, v, point, point, point, point, point, body)
+
+
+def translate_if_test(repo, relpath, qualname, name, opaque_exprs):
+    """The test of the ONLY `if` statement inside [qualname] (anywhere in its loops / try blocks), with the listed
+    sub-expressions read as real parameters: e.g. the overlap criterion of Spheres.overlaps."""
+    with open(os.path.join(repo, relpath)) as f:
+        tree = ast.parse(f.read())
+    fn = find_function(tree, qualname)
+    ifs = [n for n in ast.walk(fn) if isinstance(n, (ast.If, ast.IfExp))]
+    if len(ifs) != 1 or not isinstance(ifs[0], ast.If) or ifs[0].orelse:
+        raise Unsupported("%s does not contain exactly one plain if" % qualname)
+    tr = Tr(opaque_exprs=opaque_exprs)
+    body = tr.cond(ifs[0].test, frozenset())
+    sig = " ".join("(%s : R)" % v for v in tr.opaque_exprs.values())
+    return "Definition %s %s : bool :=\n  %s.\n" % (name, sig, body)
+
+
+def translate_call_arg(repo, relpath, qualname, name, func, argno, opaque_exprs):
+    """Argument number [argno] of the ONLY call of [func] inside [qualname], as a real expression over the listed opaque
+    sub-expressions: e.g. the candidate value inside `largest = max(largest, <candidate>)` of Spheres.largest_overlap."""
+    with open(os.path.join(repo, relpath)) as f:
+        tree = ast.parse(f.read())
+    fn = find_function(tree, qualname)
+    calls = [n for n in ast.walk(fn) if isinstance(n, ast.Call) and _dotted(n.func) == func]
+    if len(calls) != 1 or calls[0].keywords or len(calls[0].args) <= argno:
+        raise Unsupported("%s does not contain exactly one call of %s" % (qualname, func))
+    tr = Tr(opaque_exprs=opaque_exprs)
+    body = tr.ex(calls[0].args[argno], frozenset())
+    sig = " ".join("(%s : R)" % v for v in tr.opaque_exprs.values())
+    return "Definition %s %s : R :=\n  %s.\n" % (name, sig, body)
